@@ -170,6 +170,10 @@ func build(n int, thorough bool) *fam {
 	hist("unjustified-source-hdr", false, B(c1), B(c2), B(c3), BSL(c4, c2, full, false), R, B(c5))
 	// E: finalization needs the direct child justified from the checkpoint itself
 	hist("finalize-direct", true, append(append(append([]int{B(c1), B(c2), B(c3), B(c4)}, votes(full, 0, c2)...), votes(full, c2, c4)...), R, B(c5))...)
+	// votes arrive in a burst after the blocks: two checkpoints are finalized one after the other without any block
+	// connected in between (the stored chain status still names the old root), then the node restarts
+	hist("finalize-two-levels-without-block-then-restart", true, append(append(append(append([]int{B(c1), B(c2), B(c3), B(c4), B(c5), B(c6)}, votes(full, 0, c2)...), votes(full, c2, c4)...), votes(full, c4, c6)...), R, B(c7))...)
+	hist("finalize-two-levels-without-block-then-restart-twice", true, append(append(append(append([]int{B(c1), B(c2), B(c3), B(c4), B(c5), B(c6)}, votes(full, 0, c2)...), votes(full, c2, c4)...), votes(full, c4, c6)...), R, R, B(c7))...)
 	// a late vote for the checkpoint that has meanwhile been finalized (it is the tree root now)
 	hist("late-vote-for-finalized-root", true, append(append(append([]int{B(c1), B(c2), B(c3), B(c4)}, votes(full, 0, c2)...), votes(full, c2, c4)...), V(n-1, 0, c2), V(0, 0, c2), R, V(n-1, 0, c2), B(c5))...)
 	hist("vote-for-genesis", true, B(c1), B(c2), V(0, 0, 0), V(0, c2, 0), R, V(0, 0, 0), B(c3))
